@@ -11,6 +11,13 @@ the expected weights / outputs are rationals and are compared by rationalised eq
 (Fraction(x).limit_denominator(D)) plus a residual bound; elsewhere the derived allowance of
 DualCone.tla (header) is used.
 
+Row-scaled family (DualCone.tla, section of that name; scenarios RSCN): J = 2^e D_r J0 with the rows scaled by
+eps^rho_i; the specification solved the KKT system over Z[eps] for delta = reg_eps s^2 = (p/q) tr G and preference
+vectors with entries in {0, eps^te, 1}; a case instantiates eps = 2^-P (RS_P_LADDER), evaluates the exported
+polynomials in exact rational arithmetic and calls the code with reg_eps = (p/q) tr G / s^2, s^2 enclosed by an exact
+certificate (certified_lambda); weights and output are compared with the exact ones within the derived float64
+allowance (eval_c03, kind "rs").
+
 Presentations and histories (DualCone.tla, section of that name; exported per scenario as `pres` and `buf`):
 the preference vector of a case is GIVEN in one of the dtypes that hold it exactly (float64 / float32 / int64,
 rotating), next to a float64 or (F2, around the threshold) a float32 matrix; the scenarios of one shape form a
@@ -48,6 +55,12 @@ def pref_tensor(u: list[Fraction] | None, dtype=torch.float64):
 DTYPES = {"f64": torch.float64, "f32": torch.float32, "i64": torch.int64}
 EPS32 = 2.0 ** -23
 K32 = 64.0              # assumed backward-error constant of the float32 SVD / U diag U^T product (in units of eps32)
+EPS64 = 2.0 ** -52
+K64 = 64.0              # the same constant for the float64 SVD / product / QP solve (row-scaled family; measured: < 2)
+ETA_S = 2.0 ** -44      # relative half-width of the CERTIFIED enclosure of s^2 (row-scaled family, certified_lambda)
+# row-scale ladder of the row-scaled family (DualCone.tla, section of that name): eps = 2^-P, row norms 2^P apart -
+# two to twelve orders of magnitude
+RS_P_LADDER = (7, 14, 20, 27, 30, 34, 40)
 
 
 def pref_given(u: list[Fraction] | None, pd: str):
@@ -122,7 +135,11 @@ def make(agg: str, u, norm_eps=None, reg_eps=None, **kw):
     if agg == "dualproj":
         return DualProj(pref_vector=u, norm_eps=norm_eps, reg_eps=reg_eps)
     if agg == "mgda":
-        return MGDA(epsilon=kw["epsilon"], max_iters=kw["max_iters"])
+        # epsilon = 0 ("never stop early") in the presentation the case names: the float 0.0 or the integer 0
+        eps0 = kw["epsilon"]
+        if kw.get("epsz") is not None:
+            eps0 = 0 if kw["epsz"] == "int" else 0.0
+        return MGDA(epsilon=eps0, max_iters=kw["max_iters"])
     if agg == "cagrad":
         return CAGrad(c=kw["c"])
     raise ValueError(agg)
@@ -236,10 +253,15 @@ def _run_weighted(case: dict, sess: Session | None = None):
     the tensor / aggregator objects of the case's buffer mode.  Returns (J, weights, output) with float64 lists."""
     sess = sess or Session()
     pd = case.get("pd", "f64")
-    u = None if (pd == "none" or (case["pi"] == 0 and case["m"] > 1)) else frv(case["u"])
+    if case["kind"].startswith("rs"):
+        u = None if pd == "none" else rs_pref(case)
+    else:
+        u = None if (pd == "none" or (case["pi"] == 0 and case["m"] > 1)) else frv(case["u"])
     dtype = DTYPES[case.get("dtype", "f64")]
     A = sess.agg(case["agg"], u, "none" if u is None else pd, case["norm_eps"], case["reg_eps"], case.get("amode", "fresh"))
-    J = sess.tensor(scaled(case["J0"], case["e"], dtype), case.get("tmode", "fresh"))
+    Jgiven = torch.tensor(rs_float_matrix(case, case["e"]), dtype=dtype) if case["kind"].startswith("rs") \
+        else scaled(case["J0"], case["e"], dtype)
+    J = sess.tensor(Jgiven, case.get("tmode", "fresh"))
     w = A.weighting(J)
     out = A(J)
     return J, w.to(torch.float64).tolist(), out.to(torch.float64).tolist()
@@ -253,13 +275,19 @@ def case_key(case: dict) -> str:
         if case.get("pd") not in (None, "none", case.get("dtype", "f64")):      # given in another dtype than the matrix (C03)
             extra += f":pref={case['pd']}"
     elif case["agg"] == "mgda":
-        extra = f":K={case['K']}"
+        extra = f":K={case['K']}" + (":eps=int0" if case.get("epsz") == "int" else "")
     elif case["agg"] == "cagrad":
         extra = f":c={case['c']:g}"
     bs = ""
     if "bs" in case:
         b = case["bs"]
         bs = f":bs(rho={''.join(map(str, b['rho']))},gam={''.join(map(str, b['gam']))},P={b['P']})"
+    if "rs" in case:
+        b = case["rs"]
+        bs = f":rs(rho={''.join(map(str, b['rho']))},P={b['P']})"
+        extra = f":u={''.join(map(str, b['code']))}{'d' if b['default'] else ''}t{b['te']}:delta={b['reg'][0]}/{b['reg'][1]}tr"
+        if case.get("pd") not in (None, "none", "f64"):
+            extra += f":pref={case['pd']}"
     return f"{case['agg']}:J=[{j}]{bs}:e={case['e']}{extra}:{case.get('dtype', 'f64')}"
 
 
@@ -275,19 +303,42 @@ def eval_c03(case: dict, sess: Session | None = None) -> list[tuple[str, str]]:
     cast of the float64 QP solution to float32), and |out/2^e - J0^T w*| <= sqrt(tr G0) (that bound + 4 eps32 |w*|_1)."""
     fails: list[tuple[str, str]] = []
     key = case_key(case)
-    u = frv(case["u"])
+    is_rs = case["kind"].startswith("rs")
+    u = rs_pref(case) if is_rs else frv(case["u"])
     m, e, tr = case["m"], case["e"], case["tr"]
     sc = 2.0 ** e
     f32 = case.get("dtype") == "f32"
     pdesc = {"none": "default", "f64": "float64", "f32": "float32", "i64": "int64"}[case.get("pd", "f64")]
-    desc = (f"{case['agg']}(pref={[str(x) for x in u]} given as {pdesc}, norm_eps={case['norm_eps']:g}, reg_eps={case['reg_eps']:g}) "
-            f"on the {'float32' if f32 else 'float64'} matrix J = 2^{e} * {case['J0']}")
+    if is_rs:
+        b = case["rs"]
+        ustr = [{0: "0", 1: f"2^-{b['P'] * b['te']}", 2: "1"}[c] + (f"/{b['ud']}" if b["ud"] != 1 else "") for c in b["code"]]
+        desc = (f"{case['agg']}(pref={ustr} given as {pdesc}, norm_eps={case['norm_eps']:g}, reg_eps={case['reg_eps']!r} "
+                f"[= {b['reg'][0]}/{b['reg'][1]} tr G / s^2]) on the float64 matrix J = 2^{e} * diag(2^-{b['P']}*{b['rho']}) {case['J0']}")
+    else:
+        desc = (f"{case['agg']}(pref={[str(x) for x in u]} given as {pdesc}, norm_eps={case['norm_eps']:g}, reg_eps={case['reg_eps']:g}) "
+                f"on the {'float32' if f32 else 'float64'} matrix J = 2^{e} * {case['J0']}")
     try:
         J, w, out = _run_weighted(case, sess)
     except Exception as ex:                                                   # noqa: BLE001
         return [(key + ":raised", f"{desc} raised {type(ex).__name__}: {str(ex)[:150]}")]
-    JT = list(zip(*case["J0"]))
-    if case["kind"] == "below":
+    JT = list(zip(*(rs_exact_rows(case) if is_rs else case["J0"])))
+    if case["kind"] == "rs":
+        # float64 allowance, derived as for float32 matrices above with eps64 in the place of eps32: the computed
+        # A' = G'/s'^2 + rho I differs from A by |A' - A| <= K64 eps64, the regulariser actually applied is
+        # rho s^2 = delta (1 +- ETA_S) by the certificate of s^2 (|A' - A| <= rho ETA_S more), hence
+        # |w - w*| <= (K64 eps64 / rho + 2 ETA_S + 2 eps64) |w*|_1  and  |out/2^e - J^T w*| <= sqrt(tr G) (that + 4 eps64 |w*|_1)
+        ew = rs_expected(case)
+        eo = [sum(c * x for c, x in zip(col, ew)) for col in JT]
+        w1 = float(sum(abs(q) for q in ew))
+        aw = (K64 * EPS64 / case["reg_eps"] + 2 * ETA_S + 2 * EPS64) * w1
+        ao = math.sqrt(tr) * (aw + 4 * EPS64 * w1)
+        if not all(abs(Fraction(wi) - q) <= aw for wi, q in zip(w, ew)):
+            fails.append((key + ":rs_w", f"{desc}: weights {w} differ from the exact regularised projection "
+                                         f"{[float(q) for q in ew]} by more than the float64 allowance {aw:.3e}"))
+        if not all(math.isfinite(o) and abs(Fraction(o) / Fraction(2) ** e - q) <= ao for o, q in zip(out, eo)):
+            fails.append((key + ":rs_out", f"{desc}: output/2^{e} = {[o / sc for o in out]} differs from the exact "
+                                           f"projection {[float(q) for q in eo]} by more than the float64 allowance {ao:.3e}"))
+    elif case["kind"] in ("below", "rs_below"):
         # s < norm_eps: weights = u and output = J^T u (up to float rounding of the product)
         exp_out = [float(sum(Fraction(c) * x for c, x in zip(col, u))) for col in JT]
         u1 = sum(abs(float(x)) for x in u)
@@ -334,6 +385,207 @@ def eval_c03(case: dict, sess: Session | None = None) -> list[tuple[str, str]]:
     if any(abs(o - c) > ctol * sc * math.sqrt(max(tr, 1)) * max(1.0, sum(abs(x) for x in w)) for o, c in zip(out, comb)):
         fails.append((key + ":comb", f"{desc}: output {out} is not weighting(J) @ J = {comb}"))
     return fails
+
+
+
+# ------------------------------------------------------------------------------------------ C03, row-scaled family
+
+def _ev(poly, P: int) -> Fraction:
+    """Value of an exported eps-polynomial at eps = 2^-P (exact; same as badscale.ev)."""
+    eps = Fraction(1, 2 ** P)
+    acc = Fraction(0)
+    for c in reversed(poly):
+        acc = acc * eps + c
+    return acc
+
+
+def _fdet(M):
+    n = len(M)
+    if n == 0:
+        return Fraction(1)
+    if n == 1:
+        return M[0][0]
+    return sum((-1) ** j * M[0][j] * _fdet([r[:j] + r[j + 1:] for r in M[1:]]) for j in range(n))
+
+
+def _pos_def(M) -> bool:
+    return all(_fdet([r[:k] for r in M[:k]]) > 0 for k in range(1, len(M) + 1))
+
+
+def certified_lambda(G: list[list[Fraction]]) -> float | None:
+    """A float lam with the EXACT certificate lam (1 - ETA_S) <= lambda_max(G) < lam (1 + ETA_S) (Sylvester's criterion
+    in rational arithmetic on t I - G, as the specification's LamMaxBelow), or None when the float eigenvalue
+    routine is not that accurate (the case is then skipped and counted).  G: exact rational Gramian, m <= 4."""
+    import numpy as np
+    m = len(G)
+    big = max(G[i][i] for i in range(m))
+    if big <= 0:
+        return None
+    Gf = np.array([[float(x / big) for x in r] for r in G])
+    lam_f = float(np.linalg.eigvalsh(Gf)[-1])
+    if not (lam_f > 0 and math.isfinite(lam_f)):
+        return None
+    lam = Fraction(lam_f) * big
+    lamf = float(lam)
+    lam = Fraction(lamf)
+    eta = Fraction(ETA_S)
+    shift = lambda t: [[(t if i == j else 0) - G[i][j] for j in range(m)] for i in range(m)]      # noqa: E731
+    if _pos_def(shift(lam * (1 + eta))) and not _pos_def(shift(lam * (1 - eta))):
+        return lamf
+    return None
+
+
+def rs_exact_rows(case: dict) -> list[list[Fraction]]:
+    """D_r J0 (without the factor 2^e), exact."""
+    b = case["rs"]
+    eps = Fraction(1, 2 ** b["P"])
+    return [[Fraction(x) * eps ** b["rho"][i] for x in row] for i, row in enumerate(case["J0"])]
+
+
+def rs_float_matrix(case: dict, e: int) -> list[list[float]]:
+    """2^e D_r J0 as floats; exact (a small integer times a power of two)."""
+    b = case["rs"]
+    out = []
+    for i, row in enumerate(case["J0"]):
+        ex = e - b["P"] * b["rho"][i]
+        if not -200 <= ex <= 200:
+            raise ValueError("scale exponent outside the exactly representable range used here")
+        out.append([float(x) * 2.0 ** ex for x in row])
+    return out
+
+
+def rs_pref(case: dict) -> list[Fraction]:
+    """The preference vector of a row-scaled case: entry codes 0 -> 0, 1 -> eps^te, 2 -> 1, over the denominator ud."""
+    b = case["rs"]
+    tiny = Fraction(1, 2 ** (b["P"] * b["te"]))
+    return [{0: Fraction(0), 1: tiny, 2: Fraction(1)}[c] / b["ud"] for c in b["code"]]
+
+
+def rs_expected(case: dict) -> list[Fraction]:
+    """The exact weights of the specification at eps = 2^-P: DualProj: V / (D ud); UPGrad: SUM_i u_i Proj(e_i)."""
+    b = case["rs"]
+    P, m = b["P"], case["m"]
+    if case["agg"] == "dualproj":
+        d = _ev(b["wd"]["D"], P) * b["ud"]
+        return [_ev(v, P) / d for v in b["wd"]["V"]]
+    u = rs_pref(case)
+    pe = [[_ev(v, P) / _ev(x["D"], P) for v in x["V"]] for x in b["pe"]]
+    return [sum(u[i] * pe[i][j] for i in range(m)) for j in range(m)]
+
+
+def rs_hash(scn: dict) -> int:
+    return sum((i + 1) * x for i, x in enumerate(sum(scn["J0"], []))) + 5 * sum((i + 1) * r for i, r in enumerate(scn["rho"]))
+
+
+def c03_rs_cases(scn: dict, tier: str, salt: int = 0) -> tuple[list[dict], dict]:
+    """The C03 cases of one ROW-SCALED scenario (DualCone.tla RSScenario): instantiated at two exponents of the ladder
+    (one for an instance without conflict), every preference vector of the scenario (m = 3, quick: a rotating half of the
+    19 explicit ones), both delta = (p/q) tr G, both aggregators; the overall scale 2^e rotates over 0 (large rows of
+    order 1), P (small rows of order 1) and, once per instance and exponent, a scale below the norm_eps threshold."""
+    cases: list[dict] = []
+    cnt = {"rs_uncertified_skipped": 0, "rs_undecided_scale_skipped": 0, "rs_instances": 1}
+    m, h = scn["m"], rs_hash(scn)
+    ladder = [P for P in RS_P_LADDER if P >= scn["needP"]]
+    if not ladder:
+        cnt["rs_needP_beyond_ladder"] = 1
+        return cases, cnt
+    picks = [ladder[(h + salt) % len(ladder)]]
+    if scn["conflict"] and ladder[(h + salt + 3) % len(ladder)] not in picks:
+        picks.append(ladder[(h + salt + 3) % len(ladder)])
+    for P in picks:
+        base = {"J0": scn["J0"], "m": m, "n": scn["n"], "conflict": scn["conflict"], "tmode": "fresh", "amode": "fresh",
+                "norm_eps": NORM_EPS_DEFAULT}
+        rs0 = {"rho": scn["rho"], "P": P, "te": scn["te"], "trp": scn["tr"], "lamK": scn["lamK"]}
+        rows = rs_exact_rows(base | {"rs": rs0})
+        G = [[sum(a * b for a, b in zip(r, t)) for t in rows] for r in rows]
+        tr = _ev(scn["tr"], P)
+        if tr != sum(G[i][i] for i in range(m)):
+            raise ValueError(f"row-scaled scenario {scn['J0']} {scn['rho']}: exported trace polynomial is not the trace at P = {P}")
+        k = scn["lamK"]
+        f = {"s2lo": tr * (k - 1) / 16, "s2hi": tr * min(k, 16) / 16}
+        lam = certified_lambda(G)
+        if lam is None:
+            cnt["rs_uncertified_skipped"] += 1
+            continue
+        if not (f["s2lo"] * (1 - Fraction(ETA_S)) <= Fraction(lam) <= f["s2hi"] * (1 + Fraction(ETA_S))):
+            raise ValueError(f"row-scaled scenario {scn['J0']} {scn['rho']} P={P}: certified s^2 = {lam} outside the "
+                             f"specification's bracket [{float(f['s2lo'])}, {float(f['s2hi'])}]")
+        below_done = False
+        for pi, pf in enumerate(scn["prefs"]):
+            if tier == "quick" and m >= 3 and not pf["default"] and scn["conflict"] and (pi + h + salt + P) % 2:
+                continue
+            if not scn["conflict"] and (pi + h + salt) % 3:
+                continue
+            for ri, reg in enumerate(scn["regs"]):
+                if not scn["conflict"] and ri != (h + salt) % len(scn["regs"]):
+                    continue
+                reg_eps = float(Fraction(reg[0], reg[1]) * tr / Fraction(lam))
+                for ai, agg in enumerate(("dualproj", "upgrad")):
+                    rot = (h + salt + pi + ri + ai) % 2
+                    e = P if rot else 0
+                    pres = pf["pres"]
+                    pd = pres[(h + salt + pi + ri + ai + P) % len(pres)]
+                    rs = rs0 | {"code": pf["code"], "ud": pf["ud"], "default": pf["default"], "reg": reg, "lam": lam,
+                                "wd": scn["sol"][ri]["wd"][pi], "pe": scn["sol"][ri]["pe"]}
+                    c = base | {"kind": "rs", "agg": agg, "pi": pi, "pd": pd, "e": e, "reg_eps": reg_eps, "rs": rs,
+                                "tr": float(tr)}
+                    sg = bs_thresh_sign(f, e, NORM_EPS_DEFAULT)
+                    if sg > 0:
+                        cases.append(c)
+                    else:
+                        cnt["rs_undecided_scale_skipped"] += 1
+                    if not below_done and not pf["default"] and ri == 0 and ai == (h + salt) % 2:
+                        eb = -24
+                        if bs_thresh_sign(f, eb, NORM_EPS_DEFAULT) < 0:
+                            cases.append(c | {"kind": "rs_below", "e": eb})
+                            below_done = True
+    return cases, cnt
+
+
+def rs_random_instances(rng, count: int) -> list[dict]:
+    """Seeded random instances for the file branch of the row-scaled family: larger entries, wider matrices and ANY
+    pattern of scaled rows (not only 'scaled last')."""
+    seen, out = set(), []
+    while len(out) < count:
+        m = rng.choice((2, 2, 3))
+        n = rng.choice((2, 3, 4)) if m == 2 else rng.choice((2, 3))
+        hi = 3 if m == 2 else (2 if n == 2 else 1)
+        J0 = [[rng.randint(-hi, hi) for _ in range(n)] for _ in range(m)]
+        rho = [rng.randint(0, 1) for _ in range(m)]
+        if rng.random() < 0.4:                      # a small row nearly opposite to a large one
+            rho[0], rho[1] = 0, 1
+            J0[1] = [-x for x in J0[0]]
+            j = rng.randrange(n)
+            J0[1][j] += rng.choice((-1, 1))
+            J0[1] = [max(-hi, min(hi, x)) for x in J0[1]]
+        if min(rho) > 0 or max(rho) == 0 or all(x == 0 for r in J0 for x in r):
+            continue
+        k = (tuple(map(tuple, J0)), tuple(rho))
+        if k in seen:
+            continue
+        seen.add(k)
+        out.append({"J0": J0, "rho": rho})
+    return out
+
+
+def work_c03_rs(args) -> dict:
+    scn, tier, salt = args
+    cases, cnt = c03_rs_cases(scn, tier, salt)
+    fails = []
+    kinds: dict[str, int] = {}
+    for c in cases:
+        for key, what in eval_c03(c):
+            fails.append((key, what, {"kind": "case", "case": c}))
+        kinds[c["kind"]] = kinds.get(c["kind"], 0) + 1
+        pk = f"rs_pref_{c['pd']}"
+        kinds[pk] = kinds.get(pk, 0) + 1
+        if c["kind"] == "rs":
+            kinds[f"rs_P{c['rs']['P']}"] = kinds.get(f"rs_P{c['rs']['P']}", 0) + 1
+            if 1 in c["rs"]["code"]:
+                kinds["rs_tiny_pref_entry"] = kinds.get("rs_tiny_pref_entry", 0) + 1
+            if 0 in c["rs"]["code"]:
+                kinds["rs_sparse_pref"] = kinds.get("rs_sparse_pref", 0) + 1
+    return {"n": len(cases), "fails": fails, "cnt": cnt, "kinds": kinds}
 
 
 # ---- sessions
@@ -409,11 +661,23 @@ def eval_session(cases: list[dict]) -> tuple[list[tuple[str, str, dict]], dict]:
 
 MGDA_BUDGETS_ALL = (1, 2, 3, 10, 100)
 MGDA_BUDGETS_BIG = (1000, 5000)
+MGDA_BUDGETS_HUGE = (20000, 60000)
 CAGRAD_CS = (1.0, 1.5, 3.0)
 
 
-def c04_cases(scn: dict, tier: str) -> tuple[list[dict], dict]:
+def mgda_config(scn: dict, K: int, salt: int) -> dict:
+    """The configuration of an MGDA case as the specification exports it (DualCone.tla, MGDA configurations): the
+    presentation of epsilon = 0 (salt = seed) and the bound 8 s^2 / (K + 2) with the upper end of the bracket of s^2."""
+    mg = scn["mgda"]
+    if K not in mg["budgets"]:
+        raise ValueError(f"budget {K} is not on the specification's ladder {mg['budgets']}")
+    return {"K": K, "epsz": mg["epsz"][(salt + mg["budgets"].index(K)) % 2], "rate": mg["rate"][mg["budgets"].index(K)]}
+
+
+def c04_cases(scn: dict, tier: str, salt: int = 0) -> tuple[list[dict], dict]:
     cases: list[dict] = []
+    if tuple(scn["mgda"]["budgets"]) != MGDA_BUDGETS_ALL + MGDA_BUDGETS_BIG + MGDA_BUDGETS_HUGE:
+        raise ValueError(f"the specification's ladder of budgets {scn['mgda']['budgets']} is not the one the replay schedules")
     cnt = {"undecided_scale_skipped": 0, "below_norm_eps_outside_quantifier": 0}
     J0, m, tr, L, lam_int = scn["J"], scn["m"], scn["tr"], scn["lamLo"], scn["lamInt"]
     if tr == 0:
@@ -438,7 +702,7 @@ def c04_cases(scn: dict, tier: str) -> tuple[list[dict], dict]:
                                          "norm_eps": ne, "reg_eps": rg})
     for K in (MGDA_BUDGETS_ALL if conflict else (1, 100)):
         for e in ((0,) if K != 10 else (-10, 0, 40)):
-            cases.append(base | {"kind": "mgda", "agg": "mgda", "K": K, "e": e})
+            cases.append(base | {"kind": "mgda", "agg": "mgda", "e": e} | mgda_config(scn, K, salt + e))
     for c in (CAGRAD_CS if conflict else (1.0,)):
         for e in ((0, 10) if (conflict and c == 1.0) else (0,)):
             if thresh_sign(L, lam_int, e, NORM_EPS_DEFAULT) > 0:
@@ -484,7 +748,7 @@ def c04_bs_cases(scn: dict, tier: str, salt: int) -> tuple[list[dict], dict]:
                     cases.append(base | {"kind": "cone", "agg": agg, "pi": pi, "u": u, "e": e,
                                          "norm_eps": NORM_EPS_DEFAULT, "reg_eps": REG_EPS_DEFAULT})
             for K in ((2, 100) if (conflict and e == 0) else (10,)):
-                cases.append(base | {"kind": "mgda", "agg": "mgda", "K": K, "e": e})
+                cases.append(base | {"kind": "mgda", "agg": "mgda", "K": K, "e": e, "epsz": ("float", "int")[(salt + K + P) % 2]})
             if scn["stationary"] or f["rho2"] < B.RHO2_MIN:
                 # exactly or nearly Pareto-stationary (the model decides d2/tr < 1e-6): the conic optimum is degenerate
                 # and CAGrad's output is dominated by solver noise amplified by |g0|/|g_w|.  C04's quantifier names
@@ -534,10 +798,10 @@ def case_matrix(case: dict) -> torch.Tensor:
     return scaled(case["J0"], case["e"], torch.float64)
 
 
-def mgda_big_case(scn: dict, K: int) -> dict:
+def mgda_big_case(scn: dict, K: int, salt: int = 0) -> dict:
     return {"J0": scn["J"], "m": scn["m"], "n": scn["n"], "tr": scn["tr"], "lamLo": scn["lamLo"],
             "lamInt": scn["lamInt"], "conflict": scn["conflict"], "mn2": scn["mn2"],
-            "kind": "mgda", "agg": "mgda", "K": K, "e": 0}
+            "kind": "mgda", "agg": "mgda", "e": 0} | mgda_config(scn, K, salt)
 
 
 def _jdesc(case: dict) -> str:
@@ -568,7 +832,7 @@ def eval_c04(case: dict) -> list[tuple[str, str]]:
             u = None if (case["u"] is None or (case["pi"] == 0 and case["m"] > 1)) else frv(case["u"])
             A = make(case["agg"], pref_tensor(u, dtype), case["norm_eps"], case["reg_eps"])
         elif case["kind"] == "mgda":
-            A = make("mgda", None, epsilon=0.0, max_iters=case["K"])
+            A = make("mgda", None, epsilon=0.0, epsz=case.get("epsz"), max_iters=case["K"])
         else:
             A = make("cagrad", None, c=case["c"])
         J = J64.to(dtype)
@@ -608,10 +872,11 @@ def eval_c04(case: dict) -> list[tuple[str, str]]:
         if gap < -(rel * max(a2, mn2)) - floor:
             fails.append((key + ":mgda_below_min", f"MGDA {desc}: |A(J)|^2 = {a2!r} is below the min-norm value {mn2!r} "
                                                    f"of the convex hull (weights not on the simplex)"))
-        rate = 8.0 * s2_hi / (case["K"] + 2)
+        # the bound as the specification exports it for this budget (the same number: 8 s2_hi / (K + 2))
+        rate = float(fr(case["rate"]) * Fraction(4) ** e) if "rate" in case else 8.0 * s2_hi / (case["K"] + 2)
         if not (gap <= rate + rel * max(a2, mn2) + floor):
-            fails.append((key + ":mgda_rate", f"MGDA(epsilon=0, max_iters={case['K']}) {desc}: sub-optimality |A|^2 - minnorm^2 = "
-                                              f"{gap:.6e} exceeds 8 s^2/(max_iters+2) = {rate:.6e}"))
+            fails.append((key + ":mgda_rate", f"MGDA(epsilon={'0' if case.get('epsz') == 'int' else '0.0'}, max_iters={case['K']}) {desc}: "
+                                              f"sub-optimality |A|^2 - minnorm^2 = {gap:.6e} exceeds 8 s^2/(max_iters+2) = {rate:.6e}"))
         fails.append(("__gap__", gap / s2_hi))
     else:
         an = float(out.norm())
@@ -633,6 +898,22 @@ def eval_c04(case: dict) -> list[tuple[str, str]]:
 
 
 # --------------------------------------------------------------------------- per-scenario workers
+
+def _heavy_init():
+    torch.set_num_threads(1)
+
+
+def heavy_map(fn, items: list, procs: int | None = None) -> list:
+    """Fork-based parallel map for a FEW EXPENSIVE items, one item per task (par.pmap runs fewer than 64 items
+    sequentially, which is right for cheap items but not for MGDA calls of 60000 iterations).  Order-preserving."""
+    import multiprocessing as mp
+    import os
+    procs = min(procs or min(16, os.cpu_count() or 4), len(items))
+    if procs <= 1:
+        return [fn(x) for x in items]
+    with mp.get_context("fork").Pool(procs, initializer=_heavy_init) as pool:
+        return pool.map(fn, items, chunksize=1)
+
 
 def work_c03(args) -> dict:
     """One SESSION: consecutive scenarios of equal shape, replayed in order on the session's objects."""
@@ -671,8 +952,8 @@ def sessions_of(scns: list[dict], length: int = 6) -> list[list[dict]]:
 
 
 def work_c04(args) -> dict:
-    scn, tier = args
-    cases, cnt = c04_cases(scn, tier)
+    scn, tier, salt = args
+    cases, cnt = c04_cases(scn, tier, salt)
     fails = []
     obs: list[str] = []
     gap100 = None
@@ -711,7 +992,9 @@ def work_c04_bs(args) -> dict:
 
 
 def work_c04_big(args) -> dict:
-    scn, K = args
-    c = mgda_big_case(scn, K)
-    fails = [(k, w, c) for k, w in eval_c04(c) if not k.startswith("__")]
-    return {"n": 1, "fails": fails}
+    scn, K, salt = args
+    c = mgda_big_case(scn, K, salt)
+    got = eval_c04(c)
+    fails = [(k, w, c) for k, w in got if not k.startswith("__")]
+    gap = [w for k, w in got if k == "__gap__"]
+    return {"n": 1, "fails": fails, "gap": gap[0] if gap else None, "epsz": c["epsz"]}
